@@ -5,6 +5,21 @@ draft's vocabulary (from a vocabulary table written from the specifications)
 x values (hostile values and values that would fail if the keyword were
 active) x instances: the reported errors are unchanged.  Also: any keyword
 next to a `$ref`, and id/$id of the other spelling.
+
+Families of base schemas (unit kinds):
+  insert         the grammar G(draft): singles, sibling groups, nested applicators
+  empty          the *empty-subschema closure* of G: every grammar schema with `{}` substituted at every
+                 subschema position (one at a time, and all at once); keywords go INTO the empty subschemas
+                 and next to them (into the subschema that holds them)
+  world          multi-document reference worlds (a root and a document reached through `$ref`, held in the
+                 store or served by a handler; pointer, plain-name, whole-document, chained and unresolvable
+                 references): keywords go into every document and every `$ref` target; the values include
+                 schema-looking objects carrying id / $id / $ref / definitions, and `$schema` (alone, together
+                 with each foreign keyword, and already declared by the targets)
+  ref-sibling    any keyword of any draft next to a `$ref` (5 small bases; world-ref-sibling: every `$ref` of
+                 the worlds, in the root and in the referenced document)
+  other-id       the other drafts' spelling of the identifier above a relative reference
+  retrieved-doc  foreign keywords in a document that a handler serves
 """
 import copy
 import json
@@ -29,14 +44,21 @@ V7 = V6 | {"if", "then", "else", "$comment", "readOnly", "writeOnly", "contentEn
 VOCAB = {3: V3, 4: V4, 6: V6, 7: V7}
 LATER = {"dependentRequired", "dependentSchemas", "unevaluatedProperties", "unevaluatedItems", "minContains",
          "maxContains", "$anchor", "$defs", "$recursiveRef", "$recursiveAnchor", "prefixItems", "$dynamicRef",
-         "$vocabulary", "deprecated"}
+         "$dynamicAnchor", "$vocabulary", "deprecated"}
 ARBITRARY = {"foo", "", "x-y", "Type", "TYPE", "type ", "items2", "$foo", "requires", "optional", "maxDecimal"}
-ANNOTATIONS = {3: {"title", "description", "default"},
-               4: {"title", "description", "default", "definitions"},
-               6: {"title", "description", "default", "definitions", "examples"},
+# `$schema` names the dialect for validator_for / validate (property C20); for a validator class that the
+# caller has chosen it is one more keyword without a validation function
+ANNOTATIONS = {3: {"title", "description", "default", "$schema"},
+               4: {"title", "description", "default", "definitions", "$schema"},
+               6: {"title", "description", "default", "definitions", "examples", "$schema"},
                7: {"title", "description", "default", "definitions", "examples", "$comment", "readOnly",
-                   "writeOnly", "contentEncoding", "contentMediaType"}}
+                   "writeOnly", "contentEncoding", "contentMediaType", "$schema"}}
 ALL = V3 | V4 | V6 | V7 | LATER | ARBITRARY
+
+# the ids of the four registered metaschemas (from the specifications), with and without the empty fragment
+META = {3: "http://json-schema.org/draft-03/schema", 4: "http://json-schema.org/draft-04/schema",
+        6: "http://json-schema.org/draft-06/schema", 7: "http://json-schema.org/draft-07/schema"}
+SCHEMA_IDS = [(m, META[m] + frag) for m in (3, 4, 6, 7) for frag in ("#", "")]
 
 GENERIC = [None, True, False, 0, 1, "a", "integer", [], [{}], ["a"], [False], {}, {"a": {}}, {"type": "string"},
            {"not": {}}, [{"type": "string"}]]
@@ -52,7 +74,7 @@ HOT = {
     "definitions": [{"a": False}, {"a": {"enum": ["zz"]}}], "$defs": [{"a": False}],
     "id": ["http://other.invalid/x/", "sub/"], "$id": ["http://other.invalid/x/", "sub/"],
     "default": ["zz", {"a": 1}], "$comment": ["zz"], "readOnly": [True], "$anchor": ["a"], "$recursiveRef": ["#"],
-    "$schema": ["http://json-schema.org/draft-03/schema#"],
+    "$schema": [u for _, u in SCHEMA_IDS] + ["http://json-schema.org/draft/2019-09/schema", "urn:no-such-dialect"],
 }
 MULTI = {  # several foreign keywords inserted together (they would interact if active)
     7: [], 6: [{"if": {}, "then": {"enum": ["zz"]}}, {"if": {"enum": ["zz"]}, "else": False}],
@@ -60,10 +82,31 @@ MULTI = {  # several foreign keywords inserted together (they would interact if 
     3: [{"if": {}, "then": {"enum": ["zz"]}}, {"allOf": [{"enum": ["zz"]}], "not": {}}],
 }
 
+
+def dialect_multis(d):
+    """`$schema` naming another registered draft together with *all* keywords which that draft has and draft d
+    has not, each with a value that fails if the keyword is active (the identifier keyword is left to the
+    other-id cases).  One combination per other draft."""
+    out = []
+    for m in (3, 4, 6, 7):
+        names = sorted(k for k in VOCAB[m] - VOCAB[d] if k in HOT and k not in ("id", "$id"))
+        if m != d and names:
+            extra = {"$schema": META[m] + "#"}
+            extra.update((k, HOT[k][0]) for k in names)
+            out.append((m, extra))
+    return out
+
+
 U2 = [None, True, 0, 1, 1.5, "", "a", "ab", [], [0], [0, "a"], {}, {"a": 0}, {"a": "a", "b": 0}, {"a": [0]},
       {"ba": 0, "ab": "a"}]
+# instances of the empty-subschema family: an array longer than any tuple of the grammar, objects with a
+# property next to the named ones, so that "the empty schema accepts" / "is treated as false" / "is treated as
+# absent" give different errors
+UE = [None, 1, "a", [], [0], [0, "a"], [0, "a", None], {}, {"a": 0}, {"a": "a", "b": 0}, {"ba": 0, "ab": "a"},
+      {"a": [0], "c": 0}]
 
 MSG_FREE = ("not", "oneOf", "disallow", "type", "dependencies", "extends")
+MAPKW = ("properties", "patternProperties", "dependencies", "definitions")
 
 
 def foreign_names(d):
@@ -73,9 +116,7 @@ def foreign_names(d):
     return sorted(names)
 
 
-def values_for(name, tier):
-    vals = list(HOT.get(name, []))
-    vals += GENERIC if tier == "thorough" else GENERIC[1::5]
+def dedupe(vals):
     seen, out = set(), []
     for v in vals:
         t = json.dumps(v)
@@ -83,6 +124,14 @@ def values_for(name, tier):
             seen.add(t)
             out.append(v)
     return out
+
+
+def values_for(name, tier):
+    vals = list(HOT.get(name, []))
+    if tier == "would-fail":
+        return vals or GENERIC[1:2]
+    vals += GENERIC if tier == "thorough" else GENERIC[1::5]
+    return dedupe(vals)
 
 
 def ident(e):
@@ -96,7 +145,7 @@ def positions(S, path=()):
     if isinstance(S, dict):
         yield path
         for k, v in S.items():
-            if k in ("properties", "patternProperties", "dependencies", "definitions"):
+            if k in MAPKW:
                 if isinstance(v, dict):
                     for kk, vv in v.items():
                         yield from positions(vv, path + (k, kk))
@@ -107,6 +156,15 @@ def positions(S, path=()):
                 elif isinstance(v, list):
                     for i, vv in enumerate(v):
                         yield from positions(vv, path + (k, i))
+
+
+def holder(pos):
+    """(keyword that holds the subschema at `pos`, position of the subschema that contains that keyword)."""
+    i, kw, parent = 0, None, ()
+    while i < len(pos):
+        kw, parent = pos[i], pos[:i]
+        i += 2 if i + 1 < len(pos) and (kw in MAPKW or isinstance(pos[i + 1], int)) else 1
+    return kw, parent
 
 
 def build(d, S, store=None):
@@ -172,37 +230,497 @@ ID_BASES = [
 UID = [{"a": {"b": 0}}, {"a": {"b": "x"}}, [[0]], [["x"]], {}]
 
 
+# ---- the empty-subschema closure of the grammar -------------------------------------------------------------
+
+def empty_closure(lst, exclude=()):
+    """Every schema of `lst` that has an empty subschema, and every schema of `lst` with `{}` substituted for
+    the subschema at one non-root position, and at all of them at once; without duplicates up to key order,
+    and without the schemas of `exclude` (those are bases of the insert family)."""
+    seen = set(json.dumps(s, sort_keys=True) for s in exclude)
+    out = []
+    for S in lst:
+        if not isinstance(S, dict):
+            continue
+        cands = [S]
+        ps = [p for p in positions(S) if p != () and _get(S, p) != {}]
+        for p in ps:
+            S2 = copy.deepcopy(S)
+            _get(S2, p[:-1])[p[-1]] = {}
+            cands.append(S2)
+        if len(ps) > 1:
+            S2 = copy.deepcopy(S)
+            for p in ps:
+                try:
+                    _get(S2, p[:-1])[p[-1]] = {}
+                except (KeyError, IndexError, TypeError):
+                    pass            # lies beneath a subschema that is already emptied
+            cands.append(S2)
+        for S2 in cands:
+            t = json.dumps(S2, sort_keys=True)
+            if t not in seen and any(p != () and _get(S2, p) == {} for p in positions(S2)):
+                seen.add(t)
+                out.append(S2)
+    return out
+
+
+# ---- reference worlds -----------------------------------------------------------------------------------------
+
+W_ROOT = "http://h.invalid/w/root.json"
+W_OTHER = "http://h.invalid/w/other.json"
+# the target of every reference: draft d's own keywords, chosen so that each other draft reads them differently
+# (divisibleBy / multipleOf exist on one side only; exclusiveMinimum is a flag up to draft 4; if/then is draft 7)
+TARGET = {
+    3: {"type": "integer", "divisibleBy": 2},
+    4: {"type": "integer", "multipleOf": 2, "minimum": 0, "exclusiveMinimum": True},
+    6: {"type": "integer", "multipleOf": 2, "exclusiveMinimum": 0},
+    7: {"type": "integer", "multipleOf": 2, "exclusiveMinimum": 0, "if": {"minimum": 3}, "then": {"maximum": 3}},
+}
+W_PROPS = "abcek"
+W_VALS = [0, 1, 4, "x", [0], {"q": 0}]
+UW = [dict((p, v) for p in W_PROPS) for v in W_VALS] + [{"z": 0}]
+# the schema-looking values accept strings and nothing else: a hijacked reference shows on any instance
+UW_S = [UW[2], UW[3], UW[6]]
+# positions of the two documents at which keywords are inserted (all of them except the root of the root
+# document are the target of a reference), and the nodes that hold a `$ref`
+W_POS = [("root", ()), ("root", ("definitions", "t")), ("root", ("item",)),
+         ("other", ()), ("other", ("definitions", "t")), ("other", ("item",))]
+W_REFNODES = [("root", ("properties", p)) for p in W_PROPS + "z"] + [("other", ("definitions", "w"))]
+
+
+def make_world(d, with_ids, declared=None):
+    """root:  a -> "#item" (plain name = top-level member), b -> "#/definitions/t", c -> other#item,
+              e -> other#/definitions/w -> "#/definitions/t" (relative, inside other), k -> other (whole
+              document), z -> "#nowhere" (unresolvable: RefResolutionError before and after)
+    with_ids: the documents declare their URL with the draft's own id keyword and the root refers to
+              `other.json` relatively; otherwise nothing is declared and the references are absolute.
+    declared: the `$schema` value every reference target already carries (None: none)."""
+    idk = "id" if d <= 4 else "$id"
+
+    def t():
+        s = {"$schema": declared} if declared else {}
+        s.update(copy.deepcopy(TARGET[d]))
+        return s
+    o = "other.json" if with_ids else W_OTHER
+    root = {idk: W_ROOT} if with_ids else {}
+    root["properties"] = {"a": {"$ref": "#item"}, "b": {"$ref": "#/definitions/t"}, "c": {"$ref": o + "#item"},
+                          "e": {"$ref": o + "#/definitions/w"}, "k": {"$ref": o}, "z": {"$ref": "#nowhere"}}
+    root["definitions"] = {"t": t()}
+    root["item"] = t()
+    other = {idk: W_OTHER} if with_ids else {}
+    other.update(t())
+    other["item"] = t()
+    other["definitions"] = {"t": t(), "w": {"$ref": "#/definitions/t"}}
+    return {"root": root, "other": other}
+
+
+# identifier values a schema-looking *value* of a foreign keyword carries: a plain name that is a top-level
+# member of both documents, one that is nothing, a pointer that a reference uses, relative and absolute URLs of
+# the documents, and a URL with a plain-name fragment
+W_IDVALS = ["#item", "#nowhere", "#/definitions/t", "other.json", W_OTHER, W_ROOT, W_OTHER + "#item"]
+
+
+def schemaish_values():
+    """Objects that look like subschemas (they accept strings where every real target accepts integers),
+    bare / inside an object / inside an array — none of them is a subschema when it is the value of a keyword
+    the draft does not define."""
+    out = []
+    for sp in ("$id", "id"):
+        for idv in W_IDVALS:
+            b = {sp: idv, "type": "string"}
+            tag = "%s:%s" % (sp, idv)
+            out += [(tag, b), (tag, {"a": b}), (tag, [b])]
+    out += [("definitions", {"definitions": {"t": {"type": "string"}}, "item": {"type": "string"}}),
+            ("definitions", {"t": {"type": "string"}, "item": {"type": "string"}}),
+            ("$ref", {"$ref": "#nowhere"}), ("$ref", [{"$ref": W_OTHER + "#/nowhere"}]),
+            ("$ref", {"$ref": "#/definitions/t", "type": "string"})]
+    return out
+
+
+ARBITRARY_CARRIERS = ("foo", "", "$foo")   # quick: the unknown names that carry the schema-looking values
+NAME_VALUES = {"$anchor": ["item", "nowhere", "t"], "$dynamicAnchor": ["item"], "$recursiveAnchor": [True],
+               "id": W_IDVALS, "$id": W_IDVALS}
+
+
+def observe_world(d, world, instances, mode):
+    """The observations for `instances`, validated in this order by ONE validator whose resolver is built for
+    the world (a fresh resolver per instance costs five times as much; the unedited and the edited world go
+    through the same sequence, and a replay file holds the sequence up to the differing instance).
+    mode 'store': the other document is in the resolver's store; 'served': a handler serves it.  No other
+    URL can be retrieved in either mode."""
+    cls = _e1.CLS[d]
+    world = copy.deepcopy(world)
+
+    def handler(uri):
+        if mode == "served" and uri == W_OTHER:
+            return copy.deepcopy(world["other"])
+        raise KeyError(uri)
+    store = {W_OTHER: world["other"]} if mode == "store" else {}
+    try:
+        r = RefResolver.from_schema(world["root"], id_of=cls.ID_OF, store=store,
+                                    handlers={"http": handler, "https": handler})
+        v = cls(world["root"], resolver=r)
+    except Exception as e:
+        return ["EXC-at-construction " + type(e).__name__] * len(instances)
+    out = []
+    for x in instances:
+        try:
+            out.append(sorted((ident(e) for e in v.iter_errors(x)), key=repr))
+        except exceptions.RefResolutionError:
+            out.append("RefResolutionError")
+        except exceptions.UnknownType:
+            out.append("UnknownType")
+        except Exception as e:
+            out.append("EXC " + type(e).__name__)
+    return out
+
+
+def world_configs(d, tier):
+    """(with_ids, declared $schema or None, document, position): one work unit each."""
+    out = []
+    for with_ids in (True, False):
+        for doc, pos in W_POS:
+            out.append((with_ids, None, doc, pos))
+    for with_ids in (True, False) if tier == "thorough" else (True,):
+        for _, u in SCHEMA_IDS:
+            out.append((with_ids, u, None, None))
+    return out
+
+
 def plan(ctx):
     units = []
     sizes = {}
     for d in _e1.DRAFTS:
         lst = _e1.get_list("singles", d, ctx.tier)
-        extra = _e1.get_list("nested", d, ctx.tier) if ctx.thorough else _e1.get_list("groups", d, ctx.tier)[::6]
+        groups = _e1.get_list("groups", d, ctx.tier)
+        nested = _e1.get_list("nested", d, ctx.tier)
+        extra = nested if ctx.thorough else groups[::6]
         _e1._cache[("c10base", d)] = lst + extra
         sizes["base_schemas_d%d" % d] = len(lst) + len(extra)
         sizes["foreign_names_d%d" % d] = len(foreign_names(d))
+        emp = empty_closure(lst + groups + (nested if ctx.thorough else []), exclude=lst + extra)
+        _e1._cache[("c10empty", d)] = emp
+        sizes["empty_closure_schemas_d%d" % d] = len(emp)
+        sizes["empty_subschema_positions_d%d" % d] = sum(
+            1 for S in emp for p in positions(S) if p != () and _get(S, p) == {})
         n = 16 if ctx.tier == "quick" else 48
         units += [(d, "insert", i, n) for i in range(n)]
+        units += [(d, "empty", i, n) for i in range(n)]
+        nw = len(world_configs(d, ctx.tier))
+        units += [(d, "world", i, nw) for i in range(nw)]
+        units += [(d, "world-ref-sibling", i, 2) for i in range(2)]
         units += [(d, "ref-sibling", 0, 1), (d, "other-id", 0, 1), (d, "retrieved-doc", 0, 1)]
+    sizes["world_schema_like_values"] = len(schemaish_values())
+    sizes["world_instances"] = len(UW)
+    sizes["world_insert_positions"] = len(W_POS)
+    sizes["world_ref_nodes"] = len(W_REFNODES)
+    sizes["schema_keyword_values"] = len(HOT["$schema"])
     return {
         "units": units,
-        "rule": ("base schemas (all singles of G(draft) incl. their nested slots, plus sibling groups / nested "
+        "rule": ("[insert] base schemas (all singles of G(draft) incl. their nested slots, plus sibling groups / nested "
                  "applicators) x every subschema position x every name outside the draft's vocabulary (other "
-                 "drafts' keywords, 2019-09+ names, arbitrary names, the draft's annotations, multi-keyword "
-                 "combinations) x values (values that would fail if the keyword were active + hostile generic "
-                 "values) x 9 (quick) / 16 (thorough) instances; plus every keyword of any draft next to a $ref, and the other draft's "
-                 "id spelling above a relative reference; edited schemas the real check_schema rejects are "
-                 "skipped; all cases distinct by construction; non-trivial = the unedited schema rejects the "
-                 "instance or the inserted value is a 'would fail if active' value"),
-        "bounds": dict(sizes, instances=len(U2) if ctx.thorough else len(U2[::2]) + 1, tier=ctx.tier),
+                 "drafts' keywords, 2019-09+ names, arbitrary names, the draft's annotations incl. $schema with every "
+                 "registered metaschema id with and without '#', multi-keyword combinations, $schema of another draft "
+                 "together with all of that draft's keywords) x values (values that would fail if the keyword were "
+                 "active + hostile generic values) x 9 (quick) / 16 (thorough) instances; "
+                 "[empty] the empty-subschema closure of the grammar (every single / sibling group (thorough: / nested "
+                 "schema) with {} substituted at each subschema position, and at all of them, distinct up to key "
+                 "order, minus the insert bases) x (each empty subschema, and the subschema that holds it (quick: there "
+                 "only the would-fail value(s) of each name)) x the same "
+                 "names and values x the instances (of 12, with an array longer than every tuple) whose JSON type some "
+                 "keyword of the schema applies to (thorough: all 12); "
+                 "[world] two-document reference worlds (ids declared + relative references / nothing declared + "
+                 "absolute references; pointer, plain-name, whole-document, chained and unresolvable references; "
+                 "targets written in draft-specific vocabulary) x {other document in the store, served by a handler "
+                 "(quick: served only for edits of the served document in the worlds that declare ids)}; one "
+                 "validator per (world, mode) validates the 9 instances in a fixed order; x "
+                 "every document root and every reference target x the same names x (the same values + 47 "
+                 "schema-looking values carrying id/$id (plain-name, pointer, relative, absolute) / definitions / $ref, "
+                 "bare, in an object, in an array (quick: under 3 of the 11 arbitrary names and under every other "
+                 "name) + plain names for $anchor-like keywords), and $schema (8 ids) x every "
+                 "foreign name with a would-fail value; the same worlds (quick: those that declare ids) with every "
+                 "target already declaring each of the 8 $schema ids x names x would-fail values; 7 instances (quick: 3 "
+                 "for the schema-looking values); "
+                 "plus every keyword of any draft next to a $ref (5 small bases and every $ref of the worlds), and the "
+                 "other draft's id spelling above a relative reference; edited schemas / documents the real "
+                 "check_schema rejects are skipped; all cases distinct by construction; non-trivial = the unedited "
+                 "schema rejects the instance or the inserted value is a 'would fail if active' value"),
+        "bounds": dict(sizes, instances=len(U2) if ctx.thorough else len(U2[::2]) + 1, empty_family_instances=len(UE),
+                       tier=ctx.tier),
         "assumptions": ["vocabulary table mc/props/c10.py written from the specifications",
                         "messages of not/oneOf/disallow/type/dependencies/extends errors are not compared (they embed "
-                        "the repr of the edited subschema)"],
+                        "the repr of the edited subschema)",
+                        "$schema is treated as an annotation of every draft: the validator class is chosen by the "
+                        "caller, iter_errors of that class never reads it",
+                        "a violation that occurs for every inserted name at one position is reported under a "
+                        "signature that names the position instead of the keyword"],
     }
+
+
+class Acc(object):
+    """Counters and violations of one work unit."""
+
+    def __init__(self, d):
+        self.d = d
+        self.ev = self.nt = self.skipped = 0
+        self.viol, self.samples, self.outcomes = [], [], {}
+
+    def count(self, same, base, hot):
+        self.ev += 1
+        key = "same-nonempty" if (same and base) else ("same-empty" if same else "DIFFERENT")
+        self.outcomes[key] = self.outcomes.get(key, 0) + 1
+        if base or hot:
+            self.nt += 1
+
+    def result(self):
+        return {"evaluations": self.ev, "nontrivial": self.nt, "violations": self.viol, "samples": self.samples,
+                "outcomes": self.outcomes, "counters": {"edited_schemas_rejected_by_check_schema": self.skipped}}
+
+
+def violation(d, S, S2, x, base, got, what, store=None):
+    return {"signature": "C10|%s|%s" % (what["kind"], what["name"]), "size": len(str(S2)) + len(str(x)),
+            "case": {"draft": d, "schema": S, "edited": S2, "instance": x, "store": store},
+            "detail": {"before": base, "after": got, "what": what}}
+
+
+def insert_at(acc, d, S, pos, names, tier, UQ, base, multis):
+    """All names x values (and the combinations) at one position of one schema.  If *every* name changes the
+    errors there, the name is not what matters: the signature names the position instead."""
+    node_empty = _get(S, pos) == {}
+    tried, hit, found, single_hits = set(), set(), [], set()
+    for name in names:
+        if consulted(d, S, pos, name):
+            continue
+        hot = HOT.get(name, [])
+        for val in values_for(name, tier):
+            S2 = insert(S, pos, {name: val})
+            if S2 is None:
+                continue
+            if not _e1.accepted(d, S2):
+                acc.skipped += 1
+                continue
+            tried.add(name)
+            v2 = build(d, S2)
+            for i, (x, b) in enumerate(zip(UQ, base)):
+                got = observe(d, S2, x, None, v2)
+                acc.count(got == b, b, val in hot)
+                if got != b:
+                    hit.add(name)
+                    single_hits.add((name, i))
+                    found.append(violation(d, S, S2, x, b, got, {"kind": "foreign", "name": name, "hot": val in hot}))
+    if tried and hit == tried and len(tried) > 3:
+        kw, _ = holder(pos)
+        where = "at-the-root"
+        if pos:
+            where = ("in-empty-subschema-of-" if node_empty else "in-subschema-of-") + str(kw)
+        for v in found:
+            v["detail"]["what"]["kind"] = "any-foreign-keyword"
+            v["signature"] = "C10|any-foreign-keyword|%s" % where
+    acc.viol += found
+    for kind, label, extra in multis:
+        S2 = insert(S, pos, extra)
+        if S2 is None or not _e1.accepted(d, S2):
+            continue
+        v2 = build(d, S2)
+        for i, (x, b) in enumerate(zip(UQ, base)):
+            got = observe(d, S2, x, None, v2)
+            acc.count(got == b, b, True)
+            if got != b and any((k, i) in single_hits for k in extra):
+                # shrinks to a single inserted keyword, which is reported above
+                acc.outcomes["DIFFERENT-combination-subsumed-by-one-of-its-keywords"] = acc.outcomes.get(
+                    "DIFFERENT-combination-subsumed-by-one-of-its-keywords", 0) + 1
+            elif got != b:
+                acc.viol.append(violation(d, S, S2, x, b, got, {"kind": kind, "name": label, "hot": True}))
+
+
+def multis_for(d):
+    out = [("foreign-multi", "+".join(sorted(extra)), extra) for extra in MULTI[d]]
+    out += [("foreign-with-$schema", "draft-0%d-vocabulary" % m, extra) for m, extra in dialect_multis(d)]
+    return out
+
+
+def run_insert(acc, d, shard, n, ctx):
+    UQ = U2 if ctx.thorough else U2[::2] + [{"ba": 0, "ab": "a"}]
+    bases = _e1._cache[("c10base", d)]
+    names = foreign_names(d)
+    multis = multis_for(d)
+    for bi in range(shard, len(bases), n):
+        S = bases[bi]
+        if not isinstance(S, dict):
+            continue
+        base = [observe(d, S, x) for x in UQ]
+        for pos in positions(S):
+            insert_at(acc, d, S, pos, names, ctx.tier, UQ, base, multis)
+        if len(acc.samples) < 1 and bi % 53 == 11:
+            acc.samples.append({"draft": d, "schema": S, "inserted": {"const": "zz"}, "at": "every position"})
+
+
+def run_empty(acc, d, shard, n, ctx):
+    bases = _e1._cache[("c10empty", d)]
+    names = foreign_names(d)
+    multis = multis_for(d)
+    for bi in range(shard, len(bases), n):
+        S = bases[bi]
+        UQ = [x for x in UE if ctx.thorough or _e1.nontrivial(S, x)]
+        base = [observe(d, S, x) for x in UQ]
+        where = []
+        for pos in positions(S):
+            if pos != () and _get(S, pos) == {}:
+                for p in (pos, holder(pos)[1]):
+                    if p not in where:
+                        where.append(p)
+        for pos in where:
+            inside = _get(S, pos) == {}
+            insert_at(acc, d, S, pos, names, ctx.tier if inside or ctx.thorough else "would-fail", UQ, base, multis)
+            k = "positions-inside-an-empty-subschema" if _get(S, pos) == {} else "positions-next-to-an-empty-subschema"
+            acc.outcomes[k] = acc.outcomes.get(k, 0) + 1
+        if len(acc.samples) < 1 and bi % 37 == 5:
+            acc.samples.append({"draft": d, "schema": S, "inserted": "every foreign name",
+                                "at": "inside each {} and next to it"})
+
+
+def world_violation(d, world, world2, insts, i, mode, base, got, what, with_ids, declared):
+    return {"signature": "C10|%s|%s" % (what["kind"], what["name"]), "size": len(str(world2)) + len(str(insts[i])),
+            "case": {"draft": d, "world": world, "edited_world": world2, "instances": insts[:i + 1], "mode": mode},
+            "detail": {"before": base, "after": got, "what": what, "ids_declared": with_ids,
+                       "targets_declare_$schema": declared}}
+
+
+def world_edit(world, doc, pos, extra):
+    e = insert(world[doc], pos, extra)
+    if e is None:
+        return None
+    w2 = dict(world)
+    w2[doc] = e
+    return w2
+
+
+def run_world(acc, d, idx, ctx):
+    with_ids, declared, doc0, pos0 = world_configs(d, ctx.tier)[idx]
+    world = make_world(d, with_ids, declared)
+    if not (_e1.accepted(d, world["root"]) and _e1.accepted(d, world["other"])):
+        raise AssertionError("a base world is not a valid schema: %r" % (world,))
+    names = foreign_names(d)
+    modes = ("store", "served")
+    base = dict(((m, len(insts)), observe_world(d, world, insts, m)) for m in modes for insts in (UW, UW_S))
+    for x, b in zip(UW, base["store", len(UW)]):
+        k = "world-base-" + ("RefResolutionError" if b == "RefResolutionError" else "errors" if b else "valid")
+        acc.outcomes[k] = acc.outcomes.get(k, 0) + 1
+
+    hits = set()        # (document, position, inserted name [, $schema value], mode, instance) that differ
+
+    def hkey(doc, pos, k, v, m, x):
+        return (doc, pos, k, json.dumps(v) if k == "$schema" else None, m, json.dumps(x))
+
+    def run(doc, pos, extra, what, hot, insts=UW):
+        w2 = world_edit(world, doc, pos, extra)
+        if w2 is None:
+            return
+        if not _e1.accepted(d, w2[doc]):
+            acc.skipped += 1
+            return
+        for m in modes:
+            if m == "served" and declared is None and not ctx.thorough and (doc == "root" or not with_ids):
+                continue        # quick: served only for edits of the served document, in the worlds with ids
+            for i, (got, b) in enumerate(zip(observe_world(d, w2, insts, m), base[m, len(insts)])):
+                acc.count(got == b, b, hot)
+                if got == b:
+                    continue
+                if len(extra) == 1:
+                    for k, v in extra.items():
+                        hits.add(hkey(doc, pos, k, v, m, insts[i]))
+                elif any(hkey(doc, pos, k, v, m, insts[i]) in hits for k, v in extra.items()):
+                    # shrinks to a single inserted keyword, which is reported on its own
+                    acc.outcomes["DIFFERENT-combination-subsumed-by-one-of-its-keywords"] = acc.outcomes.get(
+                        "DIFFERENT-combination-subsumed-by-one-of-its-keywords", 0) + 1
+                    continue
+                acc.viol.append(world_violation(d, world, w2, insts, i, m, b, got,
+                                                dict(what, doc=doc, pos=list(pos)), with_ids, declared))
+
+    def vocab_label(name, m, extra=None):
+        """A keyword of the draft that `$schema` names: the signature says so instead of listing every name."""
+        return "a-keyword-of-draft-0%d" % m if all(k in VOCAB[m] for k in (extra or [name])) else name
+
+    if declared is None:
+        # every name x (values, schema-looking values, plain names); then $schema x every name; at one position
+        kind = "foreign" if (doc0, pos0) == ("root", ()) else "foreign-in-ref-target"
+        other_id = "$id" if d <= 4 else "id"
+        for name in names:
+            hotv = HOT.get(name, [])
+            for val in dedupe(values_for(name, ctx.tier) + NAME_VALUES.get(name, [])):
+                k = "other-draft-id-in-ref-world" if name == other_id else kind
+                run(doc0, pos0, {name: val}, {"kind": k, "name": name}, val in hotv or name in NAME_VALUES)
+            if name in ARBITRARY and name not in ARBITRARY_CARRIERS and not ctx.thorough:
+                continue
+            for tag, val in schemaish_values():
+                run(doc0, pos0, {name: val}, {"kind": "foreign-value-that-looks-like-a-schema", "name": tag,
+                                              "under": name}, True, UW if ctx.thorough else UW_S)
+        for name in names:
+            if name != "$schema":
+                for m, u in SCHEMA_IDS:
+                    for val in HOT.get(name, [])[:1]:
+                        run(doc0, pos0, {"$schema": u, name: val},
+                            {"kind": "foreign-with-$schema", "name": vocab_label(name, m), "inserted": name,
+                             "names_draft": m}, True)
+        for _, label, extra in multis_for(d):
+            for m, u in SCHEMA_IDS:
+                if "$schema" not in extra:
+                    run(doc0, pos0, dict(extra, **{"$schema": u}),
+                        {"kind": "foreign-with-$schema", "name": vocab_label(label, m, extra), "inserted": label,
+                         "names_draft": m}, True)
+        acc.samples.append({"draft": d, "world": world, "inserted_into": [doc0, list(pos0)],
+                            "inserted": "every foreign name x (values + schema-looking values), $schema x name"})
+    else:
+        # the targets already say `$schema`: plain insertion of foreign keywords with would-fail values
+        m = [mm for mm, u in SCHEMA_IDS if u == declared][0]
+        for doc, pos in W_POS:
+            for name in names:
+                for val in HOT.get(name, GENERIC[1:2]):
+                    run(doc, pos, {name: val}, {"kind": "foreign-in-target-declaring-$schema",
+                                                "name": vocab_label(name, m), "inserted": name}, True)
+            for _, label, extra in multis_for(d):
+                if "$schema" not in extra:
+                    run(doc, pos, extra, {"kind": "foreign-in-target-declaring-$schema",
+                                          "name": vocab_label(label, m, extra), "inserted": label}, True)
+
+
+def run_world_ref_sibling(acc, d, idx, ctx):
+    with_ids = bool(idx)
+    idk = "id" if d <= 4 else "$id"
+    world = make_world(d, with_ids)
+    base = observe_world(d, world, UW, "store")
+    for doc, pos in W_REFNODES:
+        for name in sorted(ALL - {"$ref"}):
+            if consulted(d, world[doc], pos, name):
+                continue    # Draft 3 `required` is read lexically by the parent `properties`
+            for val in values_for(name, ctx.tier):
+                w2 = copy.deepcopy(world)
+                _get(w2[doc], pos)[name] = copy.deepcopy(val)
+                if not _e1.accepted(d, w2[doc]):
+                    acc.skipped += 1
+                    continue
+                for i, (got, b) in enumerate(zip(observe_world(d, w2, UW, "store"), base)):
+                    acc.count(got == b, b, True)
+                    if got != b:
+                        what = {"kind": "sibling-of-ref-own-id" if name == idk else "sibling-of-ref", "name": name,
+                                "doc": doc, "pos": list(pos)}
+                        acc.viol.append(world_violation(d, world, w2, UW, i, "store", b, got, what, with_ids, None))
 
 
 def run_unit(unit, ctx):
     d, kind, shard, n = unit
+    acc = Acc(d)
+    if kind == "insert":
+        run_insert(acc, d, shard, n, ctx)
+        return acc.result()
+    if kind == "empty":
+        run_empty(acc, d, shard, n, ctx)
+        return acc.result()
+    if kind == "world":
+        run_world(acc, d, shard, ctx)
+        return acc.result()
+    if kind == "world-ref-sibling":
+        run_world_ref_sibling(acc, d, shard, ctx)
+        return acc.result()
     ev = nt = skipped = 0
     viol, samples, outcomes = [], [], {}
 
@@ -215,45 +733,9 @@ def run_unit(unit, ctx):
         if base or what.get("hot"):
             nt += 1
         if got != base:
-            sig = "C10|%s|%s" % (what["kind"], what["name"])
-            viol.append({"signature": sig, "size": len(str(S2)) + len(str(x)),
-                         "case": {"draft": d, "schema": S, "edited": S2, "instance": x, "store": store},
-                         "detail": {"before": base, "after": got, "what": what}})
+            viol.append(violation(d, S, S2, x, base, got, what, store))
 
-    UQ = U2 if ctx.thorough else U2[::2] + [{"ba": 0, "ab": "a"}]
-    if kind == "insert":
-        bases = _e1._cache[("c10base", d)]
-        names = foreign_names(d)
-        for bi in range(shard, len(bases), n):
-            S = bases[bi]
-            if not isinstance(S, dict):
-                continue
-            base = [observe(d, S, x) for x in UQ]
-            for pos in positions(S):
-                for name in names:
-                    if consulted(d, S, pos, name):
-                        continue
-                    hot = HOT.get(name, [])
-                    for val in values_for(name, ctx.tier):
-                        S2 = insert(S, pos, {name: val})
-                        if S2 is None:
-                            continue
-                        if not _e1.accepted(d, S2):
-                            skipped += 1
-                            continue
-                        v2 = build(d, S2)
-                        for x, b in zip(UQ, base):
-                            compare(S, S2, x, b, {"kind": "foreign", "name": name, "hot": val in hot}, None, v2)
-                for extra in MULTI[d]:
-                    S2 = insert(S, pos, extra)
-                    if S2 is None or not _e1.accepted(d, S2):
-                        continue
-                    v2 = build(d, S2)
-                    for x, b in zip(UQ, base):
-                        compare(S, S2, x, b, {"kind": "foreign-multi", "name": "+".join(sorted(extra)), "hot": True}, None, v2)
-            if len(samples) < 1 and bi % 53 == 11:
-                samples.append({"draft": d, "schema": S, "inserted": {"const": "zz"}, "at": "every position"})
-    elif kind == "ref-sibling":
+    if kind == "ref-sibling":
         idk = "id" if d <= 4 else "$id"
         for mk in REF_BASES:
             S, store = mk(idk)
@@ -363,6 +845,10 @@ def _get(S, pos):
 
 def replay(case, ctx):
     d = case["draft"]
+    if "world" in case:
+        a = observe_world(d, case["world"], case["instances"], case["mode"])[-1]
+        b = observe_world(d, case["edited_world"], case["instances"], case["mode"])[-1]
+        return {"reproduced": a != b, "before": a, "after": b}
     if "served_before" in case:
         a = observe_served(d, case["schema"], case["served_before"], case["instance"])
         b = observe_served(d, case["schema"], case["served_after"], case["instance"])
